@@ -164,7 +164,7 @@ def step (s : State) : Op → State × Out
     match s.active with
     | none => (s, .diag .inactive)
     | some seg =>
-      let off := seg.cur % n
+      let off := (seg.base + seg.buf.length) % n   -- the true cursor (fix F26), not the saturated `curr_addr`
       if off = 0 then (s, .ok) else
       match seg.remaining with
       | none => (s, .panic)
